@@ -432,7 +432,11 @@ func (x *Exec) loadBase(s *State, a *Addr) Val {
 	case BaseGlobal:
 		name, _ := x.E.globalHeap(a.Global)
 		t := x.Heap(s, name)
-		x.typeFacts(s, t, a.Global.Type().(*types.Pointer).Elem(), 0)
+		// arrays have their declared length (element facts are left to invariants: the big generated tables
+		// would otherwise flood every query of the package initialiser)
+		if at, ok := a.Global.Type().(*types.Pointer).Elem().Underlying().(*types.Array); ok && t.Sort.Kind == smt.KSeq && !x.isInit {
+			s.assume(smt.Eq(smt.SeqLen(t), smt.IntC(at.Len())))
+		}
 		return TermVal{t}
 	case BaseSlice:
 		return TermVal{a.SliceV}
